@@ -208,6 +208,29 @@ def parse_adbasic_program(filename: str, include_dir: str) -> list[SymbolInfo]:
     return all_defined_symbols
 
 
+def _parse_index(symbol: SymbolInfo, index_str: str) -> int:
+    """Convert the index part of a symbol definition to an integer.
+
+    Parameters:
+        symbol:    Symbol definition in which the index occurs.
+        index_str: String of decimal digits.
+
+    Returns:
+        Value of the index.
+
+    Raises:
+        ParseException: If the string of digits can not be converted to an integer.
+    """
+    try:
+        return int(index_str)
+    except ValueError:
+        raise ParseException(
+            filename=symbol.filename,
+            line_nr=symbol.line_nr,
+            message="Invalid index in definition of symbol {}".format(symbol.label)
+        ) from None
+
+
 def _extract_data_defines(symbols: list[SymbolInfo]) -> dict[str, int]:
     """Extract data array information from symbol definitions.
 
@@ -237,7 +260,7 @@ def _extract_data_defines(symbols: list[SymbolInfo]) -> dict[str, int]:
         # Extract index of the global data array.
         match = re.match(r'^Data_([0-9]+)$', symbol.value, re.IGNORECASE)
         if match:
-            data_index = int(match.group(1))
+            data_index = _parse_index(symbol, match.group(1))
         else:
             _logger.warning("Unrecognized symbol definition format for %r", symbol.label)
             continue
@@ -312,14 +335,14 @@ def _extract_par_defines(symbols: list[SymbolInfo], data_info: dict[str, int]) -
         if param_desc is None:
             match = re.match(r'^Par_([0-9]+)$', symbol.value, re.IGNORECASE)
             if match:
-                par_index = int(match.group(1))
+                par_index = _parse_index(symbol, match.group(1))
                 param_desc = ParDesc(par_index)
 
         # Try to match parameter in global FPar variable.
         if param_desc is None:
             match = re.match(r'^FPar_([0-9]+)$', symbol.value, re.IGNORECASE)
             if match:
-                par_index = int(match.group(1))
+                par_index = _parse_index(symbol, match.group(1))
                 param_desc = FParDesc(par_index)
 
         # Try to match parameter in data array element.
@@ -327,7 +350,7 @@ def _extract_par_defines(symbols: list[SymbolInfo], data_info: dict[str, int]) -
             match = re.match(r'^Data_(\S+)\s*\[\s*([0-9]+)\s*]$', symbol.value, re.IGNORECASE)
             if match:
                 data_name = match.group(1)
-                elem_index = int(match.group(2))
+                elem_index = _parse_index(symbol, match.group(2))
                 data_index = data_info_upper.get(data_name.upper())
                 if data_index is None:
                     raise ParseException(
